@@ -5,4 +5,4 @@
 From Coq Require Import Extraction ExtrOcamlBasic.
 From VFS Require Import Path.Str Core.Types Core.Calls Layer.Config Layer.Run Layer.Conc.
 Extraction Language OCaml.
-Extraction "vfsmodel.ml" run_case run_conc prs rnd jn.
+Extraction "vfsmodel.ml" run_case run_case_async run_conc prs rnd jn.
